@@ -148,7 +148,7 @@ func (a App) Generate(outputPath string) error {
 
 		// Producer names are paths which can contain subfolders, so be sure
 		// the subfolders exist before creating the file
-		err := os.MkdirAll(filepath.Dir(fp), os.ModeDir)
+		err := os.MkdirAll(filepath.Dir(fp), os.ModePerm)
 		if err != nil {
 			return err
 		}
